@@ -266,6 +266,15 @@ def build_query(ob, axioms, rounds=3):
     goal = ob.goal
     insts = []
     seen_inst = set()
+    saved_apps = {k: dict(v) for k, v in V.APPS.items()}
+    try:
+        return _build_query(ob, base, goal, insts, seen_inst, rounds)
+    finally:
+        V.APPS.clear()
+        V.APPS.update(saved_apps)
+
+
+def _build_query(ob, base, goal, insts, seen_inst, rounds):
     for _ in range(rounds):
         napps = sum(len(v) for v in V.APPS.values())
         generic = None
